@@ -139,7 +139,9 @@ func (h *hgen) raw() {
 	body += g.Pick("l", "c") + g.Pick("0", "0", "1", "2", "3")
 	num := "0"
 	if g.Chance(0.3) {
-		num = g.Pick("1", "00", "x", "-1", "4294967296", "7")
+		// strconv.ParseUint(s, 10, 32): any number of leading zeros, value bound only
+		num = g.Pick("1", "00", "x", "-1", "4294967296", "7", "0000000000000000000000000", "000000000000000000000001",
+			"00000000000000000000000000000000000000", "99999999999999999999999999", "4294967295", "+1", "1_0", "")
 	}
 	w := h.wire(name)
 	if w == "" {
